@@ -97,7 +97,8 @@ def exec_line(r, exlen):
         return b'3"' + ('é'.encode() * pad)[:max(0, pad - 1) // 2 * 2]
     if k == 4:
         return b':' * pad + b'3'
-    return b'3|' + bytes(EXEC_SAFE[r.below(len(EXEC_SAFE))] for _ in range(max(0, pad - 1))).replace(b'3', b'1').replace(b'|', b'~') + b'|3'
+    filler = b"~#^&*() "                    # no address (would move the current line again), no comment quote, no bar
+    return b'3|' + bytes(filler[r.below(len(filler))] for _ in range(max(0, pad - 1))) + b'|3'
 
 
 REGION_TOK = [b'.', b'$', b'1', b'2', b'3', b'5', b'9', b'12', b'0', b"'a", b"'x", b"'", b'/12/', b'//', b'?3?', b'??', b'+', b'-', b'+3', b'-2', b'+1', b'-1',
@@ -334,11 +335,6 @@ def classify(exe, case, f, err):
     can match the empty string.  The generator never emits such patterns; the canonical input is in the corpus."""
     if f and f.startswith('hang') and any(G.nullable_loop(l.decode('utf-8', 'replace')) for l in case['lines']):
         return 'KF-EMPTY-LOOP'
-    # KF-GLOB-ROW0: ec_glob continues at i = MIN(i, xrow) with xrow = -1 (left by "0;" in the command of :g) and
-    # lbuf_globget touches ln_glob[-1]
-    t = err.decode('utf-8', 'replace') if isinstance(err, bytes) else (err or '')
-    if f and ' in lbuf_globget ' in t and ' in ec_glob ' in t and 'to the left of' in t:
-        return 'KF-GLOB-ROW0'
     return None
 
 
